@@ -11,14 +11,14 @@ _C01_BOUNDS = ("K=0 (the base as built by add_vertex/add_edge/add_face/add_cell)
 PROPS["C01"] = dict(
   jobs=[
     dict(name="c01-k1", **_c01_common,   # 8 argument tuples per query
-         shards={"quick": op_shards([B_TET], [0, 1, 2], _DELS) + op_shards([B_LOWDIM], [0], _DELS)
+         shards={"quick": op_shards([B_TET], [0, 1], _DELS) + op_shards([B_TET], [2], [OP_DEL_E, OP_DEL_F]) + op_shards([B_LOWDIM], [0], _DELS)
                         + op_shards([B_TET, B_LOWDIM, B_TRI2, B_EMPTY], [1], [OP_NONE]) + op_shards([B_TET], [1], [OP_ADD_V, OP_ADD_NV, OP_CLEAR]),
-                 "thorough": op_shards([B_TET, B_LOWDIM], [3], _DELS) + op_shards([B_LOWDIM], [1, 2], _DELS)
+                 "thorough": op_shards([B_TET, B_LOWDIM], [3], _DELS) + op_shards([B_TET], [2], [OP_DEL_V, OP_DEL_C]) + op_shards([B_LOWDIM], [1, 2], _DELS)
                         + op_shards([B_TET2_FACE, B_TET2_EDGE, B_TET2_VERTEX, B_TET3_RING, B_PRISM_PYR, B_TRI2], ALL_MODES, _DELS) + op_shards([B_HEX], [0, 3], _DELS)
                         + op_shards([B_TET2_FACE, B_TET2_EDGE, B_TET2_VERTEX, B_TET3_RING, B_TET3_FAN, B_HEX, B_HEX2, B_PRISM_PYR, B_TWOFACE, B_TET_ODD], [1], [OP_NONE]) + op_shards([B_TWOFACE], [1, 3], [OP_DEL_C])},
          bounds=_C01_BOUNDS),
     dict(name="c01-k1s", defines=["NCASES=4"], **_c01_common,   # heavier operations: 4 argument tuples per query
-         shards={"quick": op_shards([B_TET], [1], [OP_SWAP_V, OP_SWAP_E, OP_SWAP_F], per=4)[0:2] + op_shards([B_TET], [1], [OP_SWAP_E], per=4)[4:5] + op_shards([B_TET], [1], [OP_SWAP_F], per=4)[1:3]
+         shards={"quick": op_shards([B_TET], [1], [OP_SWAP_V], per=4)[1:2] + op_shards([B_TET], [1], [OP_SWAP_E], per=4)[4:5] + op_shards([B_TET], [1], [OP_SWAP_F], per=4)[1:2]
                         + op_shards([B_TET], [1], [OP_SWAP_C, OP_SET_C, OP_SET_F], per=4) + op_shards([B_TET], [1], [OP_ADD_E, OP_ADD_E_DUP], per=4)[1:2] + op_shards([B_TET], [1], [OP_BU_TOGGLE], per=4)[0:2]
                         + op_shards([B_LOWDIM], [1], [OP_SET_E], per=4)[19:21] + op_shards([B_LOWDIM], [1], [OP_ADD_F], per=4)[1:3] + op_shards([B_LOWDIM], [0], [OP_SWAP_V, OP_SWAP_E], per=4)[0:3],
                  "thorough": op_shards([B_TET], [1], _SWAPS + [OP_ADD_E, OP_ADD_E_DUP, OP_BU_TOGGLE, OP_SET_F, OP_SET_C], per=4) + op_shards([B_LOWDIM], [0], [OP_SWAP_V, OP_SWAP_E, OP_ADD_E, OP_ADD_E_DUP, OP_BU_TOGGLE], per=4)
